@@ -289,9 +289,10 @@ std::string run(const std::vector<std::string> & tok)
             else if (n == "isconn") ret = std::string("ret:bool:") + (sc.cl->is_connected() ? "1" : "0");
             else if (n == "faults")
             {
-                // faults:<send_fail_at|->:<close_fail_at|->   (armed for the following operations)
+                // faults:<send_fail_at|->:<close_fail_at|->[:<send_eintr_at|->]   (armed for the following operations)
                 if (a.size() > 1 && a[1] != "-") fp.send_fail_at = std::atoi(a[1].c_str());
                 if (a.size() > 2 && a[2] != "-") fp.close_fail_at = std::atoi(a[2].c_str());
+                if (a.size() > 3 && a[3] != "-") fp.send_eintr_at = std::atoi(a[3].c_str());
                 set_faults(fp);
                 ret = "ret:void";
             }
